@@ -346,6 +346,13 @@ def directed() -> List[Dict[str, Any]]:
     D.append({**c_c, "body": [{"s": "loop", "n": 2, "body": [{"s": "g2", "g": "cnot", "a": 1, "b": 2}, {"s": "g1", "g": "h", "q": 0}]}], "ret": False})
     # two carbon-carbon gates (the scratch register), with the electron in a non-trivial state
     D.append({**c_c, "body": [{"s": "g1", "g": "h", "q": 0}, {"s": "g2", "g": "cnot", "a": 1, "b": 2}, {"s": "g2", "g": "cphase", "a": 2, "b": 1}, {"s": "g1", "g": "h", "q": 0}], "ret": True})
+    # many carbon-carbon gates in one subroutine (each borrows a scratch register), single-qubit gates in between
+    for style in ("sdk", "perqubit"):
+        many = []
+        for i in range(16):
+            many.append({"s": "g2", "g": ("cnot", "cphase")[i % 2], "a": 1 + i % 2, "b": 2 - i % 2})
+            many.append({"s": "g1", "g": ("h", "t", "x")[i % 3], "q": i % 3})
+        D.append({**c_c, "regstyle": style, "body": many, "ret": True})
     # the first carbon-carbon gate in the text is skipped at run time, a later one is not; registers per qubit
     four = {"nq": 4, "alloc": [0, 1, 2, 3]}
     # gates directly after one another (no register write in between)
